@@ -54,7 +54,7 @@ def _job_inner(args):
         r['module'] = modname
         r['cls'] = clsname
         r['grid'] = grid
-        r['functions'] = list(getattr(ob, 'functions', ()) or [])
+        r['functions'] = sorted(set(getattr(ob, 'functions', ()) or []) | set(r.get('traced_functions') or []))
         r['canary'] = bool(ob.canary)
         r['replay'] = None
         r['bounded'] = None
